@@ -185,6 +185,110 @@ theorem clash_head_unsolvable (g g' : String) (as bs : List ITy) (rest : List Eq
     | cons _ _ ih => simp [substList, ih]
   rw [← hl as, ← hl bs, h0.2]
 
+/-! ### completeness: `clash` is only answered for unsolvable systems -/
+
+mutual
+def tySize : ITy → Nat
+  | .var _ => 1
+  | .con _ as => 1 + tysSize as
+def tysSize : List ITy → Nat
+  | [] => 0
+  | t :: ts => tySize t + tysSize ts
+end
+
+mutual
+theorem occurs_size (θ : Subst) (a : String) : ∀ (t : ITy), occurs a t = true → tySize (θ a) ≤ tySize (t.subst θ)
+  | .var b, h => by
+    simp only [occurs, beq_iff_eq] at h
+    subst h
+    exact Nat.le_refl _
+  | .con g as, h => by
+    simp only [occurs] at h
+    have := occursL_size θ a as h
+    simp only [ITy.subst, tySize]
+    omega
+theorem occursL_size (θ : Subst) (a : String) : ∀ (ts : List ITy), occursL a ts = true →
+    tySize (θ a) ≤ tysSize (substList θ ts)
+  | [], h => by simp [occursL] at h
+  | t :: ts, h => by
+    simp only [occursL, Bool.or_eq_true] at h
+    simp only [substList, tysSize]
+    rcases h with h | h
+    · have := occurs_size θ a t h; omega
+    · have := occursL_size θ a ts h; omega
+end
+
+/-- the occurs check never rejects a solvable equation -/
+theorem occurs_unsolvable (θ : Subst) (a g : String) (bs : List ITy) (ho : occursL a bs = true) :
+    θ a ≠ (ITy.con g bs).subst θ := by
+  intro h
+  have h1 := occursL_size θ a bs ho
+  have h2 : tySize (θ a) = 1 + tysSize (substList θ bs) := by rw [h]; simp [ITy.subst, tySize]
+  omega
+
+theorem unify_complete : ∀ (f : Nat) (eqs : List Eqn) (acc : Bindings), unify f eqs acc = .clash →
+    ∀ θ : Subst, ¬ Unifies θ eqs
+  | 0, _, _, h => by simp [unify] at h
+  | _ + 1, [], _, h => by simp [unify] at h
+  | f + 1, (.var a, .var b) :: rest, acc, h => by
+    intro θ hu
+    have h0 : θ a = θ b := by simpa [ITy.subst] using hu _ (List.mem_cons_self ..)
+    have hrest : Unifies θ rest := fun e he => hu e (List.mem_cons_of_mem _ he)
+    simp only [unify] at h
+    by_cases hab : a = b
+    · rw [if_pos hab] at h
+      exact unify_complete f rest acc h θ hrest
+    · rw [if_neg hab] at h
+      exact unify_complete f _ _ h θ (unifies_substEqs θ a (.var b) (by simpa [ITy.subst] using h0) rest hrest)
+  | f + 1, (.var a, .con g bs) :: rest, acc, h => by
+    intro θ hu
+    have h0 : θ a = (ITy.con g bs).subst θ := by simpa [ITy.subst] using hu _ (List.mem_cons_self ..)
+    have hrest : Unifies θ rest := fun e he => hu e (List.mem_cons_of_mem _ he)
+    simp only [unify] at h
+    by_cases ho : occursL a bs = true
+    · exact occurs_unsolvable θ a g bs ho h0
+    · rw [if_neg ho] at h
+      exact unify_complete f _ _ h θ (unifies_substEqs θ a _ h0 rest hrest)
+  | f + 1, (.con g as, .var b) :: rest, acc, h => by
+    intro θ hu
+    have h0 : θ b = (ITy.con g as).subst θ := by
+      have := hu _ (List.mem_cons_self ..)
+      simpa [ITy.subst] using this.symm
+    have hrest : Unifies θ rest := fun e he => hu e (List.mem_cons_of_mem _ he)
+    simp only [unify] at h
+    by_cases ho : occursL b as = true
+    · exact occurs_unsolvable θ b g as ho h0
+    · rw [if_neg ho] at h
+      exact unify_complete f _ _ h θ (unifies_substEqs θ b _ h0 rest hrest)
+  | f + 1, (.con g as, .con g' bs) :: rest, acc, h => by
+    intro θ hu
+    have h0 : (ITy.con g as).subst θ = (ITy.con g' bs).subst θ := hu _ (List.mem_cons_self ..)
+    have hrest : Unifies θ rest := fun e he => hu e (List.mem_cons_of_mem _ he)
+    simp only [unify] at h
+    by_cases hc : g = g' ∧ as.length = bs.length
+    · rw [if_pos hc] at h
+      refine unify_complete f _ acc h θ ?_
+      intro e he
+      rcases List.mem_append.mp he with he | he
+      · simp only [ITy.subst, ITy.con.injEq] at h0
+        exact substList_zip θ as bs h0.2 e he
+      · exact hrest e he
+    · exact clash_head_unsolvable g g' as bs rest hc ⟨θ, hu⟩
+
+/-- `unifyC` answers `clash` only when the equations have no solution at all -/
+theorem unifyC_complete (f : Nat) (eqs : List Eqn) (h : unifyC f eqs = .clash) : ¬ ∃ θ, Unifies θ eqs := by
+  rintro ⟨θ, hu⟩
+  unfold unifyC at h
+  cases hr : unify f eqs [] with
+  | ok acc0 =>
+    rw [hr] at h
+    simp only at h
+    by_cases hc : eqs.all (fun e => beqTy (apply acc0 e.1) (apply acc0 e.2)) = true
+    · rw [if_pos hc] at h; cases h
+    · rw [if_neg hc] at h; cases h
+  | clash => exact unify_complete f eqs [] hr θ hu
+  | fuel => rw [hr] at h; cases h
+
 /-! non-vacuity: `[P0] ~ P1`, `(P1, 1) ~ (P2, P3)` -/
 def exEqs : List Eqn :=
   [(.con "[]" [.var "P0"], .var "P1"), (.con "*" [.var "P1", .con "int" []], .con "*" [.var "P2", .var "P3"])]
